@@ -40,6 +40,13 @@ def main2():
         sdoc = c14.chain(seed + 1, 0, "quick").doc()
         sdoc["name"] = "c10-payouts"
         runs.append(("snap", "stmtfault", [288] if tier == "quick" else [144, 288], 0, 0, 2, sdoc))
+        # a block of the bank era that executes PEG requests (bank row read and written, yields, refunds): every statement fails once
+        import c16
+        bch = c16.chain(seed + 2, 1, "quick")
+        bdoc = bch.doc()
+        bdoc["name"] = "c10-bank"
+        bh = bdoc["sched"]["V4"] + 2
+        runs.append(("bank", "stmtfault", [bh] if tier == "quick" else [bh - 4, bh, bh + 1], 0, 0, 2, bdoc))
         open_f = vlib.open_findings(PID)
         viol, known, nexp, states, samples, deaths = [], {}, 0, 0, [], {}
         for (name, mode, full, stride, off, span, doc) in runs:
@@ -99,8 +106,8 @@ def main2():
             "rule": "one experiment per (block, SQL event k) resp. (block, upstream request i): the real daemon applies the block from the reference database, "
                     "event k / request i fails once with an injected error, the daemon must retry and commit; it is then resumed and the canonical dump compared "
                     "with the fault-free run; every experiment is replayed through Sync.tla by TLC (FailInBlock / FailInsertSynced / FailCommit). quick: every "
-                    "9th statement and every 3rd request of all blocks plus all requests of one block, and every statement of a payout block (snapshot rotation, "
-                    "staking and developer payouts); thorough: every statement and request of every block. "
+                    "9th statement and every 3rd request of all blocks plus all requests of one block, every statement of a payout block (snapshot rotation, "
+                    "staking and developer payouts) and of a bank-era block that executes PEG requests; thorough: every statement and request of every block. "
                     "Failing experiments are classified by the call site of the failed operation (innermost two pegnetd frames).",
             "samples": samples[:3], "exhaustive": tier == "thorough",
             "states": mc["states"] + states, "transitions": mc["transitions"] + states, "traces_validated_against_impl": nexp,
